@@ -78,6 +78,81 @@ fn check(fill: usize, vals: &[i128], max: usize, use_drop: bool, big: usize) -> 
     }
 }
 
+
+/// one compound value (tuple of arity 2..8, vector of a given length, nested forms) written as the first piece after `fill` bytes:
+/// every alignment of every separator and component against the buffer boundary; the text is read back through the Reader
+fn check_compound(kind: usize, fill: usize, max: usize, use_drop: bool) -> Option<Cex> {
+    let out = Rc::new(RefCell::new(Vec::new()));
+    let o2 = out.clone();
+    let vec_lens = [0usize, 1, 2, 3, 31, 32, 33, 63, 64, 65, 100, 257];
+    let r = guarded(move || {
+        let mut w = Writer::new(Box::new(Sink { out: o2, max, k: 0 }));
+        let filler = "x".repeat(fill);
+        w.write(&filler.as_str());
+        w.write_char('\n');
+        let text: String = match kind {
+            0 => { let t = (1u8, -22i32); w.write(&t); format!("{} {}", t.0, t.1) }
+            1 => { let t = (1u8, 22i32, -3i64); w.write(&t); format!("{} {} {}", t.0, t.1, t.2) }
+            2 => { let t = (-1i8, 22u16, -3i64, 4usize); w.write(&t); format!("{} {} {} {}", t.0, t.1, t.2, t.3) }
+            3 => { let t = (1u8, 22i32, -3i64, 4u16, -5i128); w.write(&t); format!("{} {} {} {} {}", t.0, t.1, t.2, t.3, t.4) }
+            4 => { let t = (1u8, 22i32, -3i64, 4u16, -5i128, 666666u32); w.write(&t); format!("{} {} {} {} {} {}", t.0, t.1, t.2, t.3, t.4, t.5) }
+            5 => { let t = (1u8, String::from("ab"), -3i64, 4u16, -5i128, 6u64, -7777isize); w.write(&t); format!("{} {} {} {} {} {} {}", t.0, t.1, t.2, t.3, t.4, t.5, t.6) }
+            6 => { let t = (1u8, 22i32, -3i64, 4u16, -5i128, 6u64, -7isize, 88888888u128); w.write(&t); format!("{} {} {} {} {} {} {} {}", t.0, t.1, t.2, t.3, t.4, t.5, t.6, t.7) }
+            7 => { let t = ((1u8, 2u8), vec![3i32, -4, 5], 6u8); w.write(&t); String::from("1 2 3 -4 5 6") }
+            k => {
+                let n = vec_lens[(k - 8) % vec_lens.len()];
+                if k - 8 < vec_lens.len() {
+                    let v: Vec<i64> = (0..n as i64).map(|i| if i % 3 == 0 { -i * 1001 } else { i }).collect();
+                    w.write(&v);
+                    v.iter().map(|x| x.to_string()).collect::<Vec<_>>().join(" ")
+                } else {
+                    let v: Vec<(u8, i16)> = (0..n).map(|i| ((i % 200) as u8, -(i as i16))).collect();
+                    w.write(&v);
+                    v.iter().map(|x| format!("{} {}", x.0, x.1)).collect::<Vec<_>>().join(" ")
+                }
+            }
+        };
+        if use_drop { drop(w); } else { w.flush(); }
+        let mut want = filler.into_bytes();
+        want.push(b'\n');
+        want.extend_from_slice(text.as_bytes());
+        want
+    });
+    let got = out.borrow().clone();
+    let inp = format!("compound:{};{};{};{}", kind, fill, max, use_drop as u8);
+    match r {
+        Err(e) => Some(Cex { input: inp, observed: e, expected: "no panic".into() }),
+        Ok(want) => {
+            if got != want {
+                let k = got.iter().zip(want.iter()).position(|(a, b)| a != b).unwrap_or(got.len().min(want.len()));
+                return Some(Cex { input: inp, observed: format!("sink received {} bytes; first difference at byte {}: ..{:?}", got.len(), k, String::from_utf8_lossy(&got[k.saturating_sub(8)..(k + 24).min(got.len())])),
+                    expected: format!("{} bytes: ..{:?}", want.len(), String::from_utf8_lossy(&want[k.saturating_sub(8)..(k + 24).min(want.len())])) });
+            }
+            // round trip: the same compound type read back from the produced text
+            let tail = want[fill + 1..].to_vec();
+            let rt = guarded(move || { let mut r = Reader::new(Box::new(std::io::Cursor::new(tail)));
+                let same = match kind {
+                    0 => r.read::<(u8, i32)>() == (1, -22),
+                    1 => r.read::<(u8, i32, i64)>() == (1, 22, -3),
+                    2 => r.read::<(i8, u16, i64, usize)>() == (-1, 22, -3, 4),
+                    3 => r.read::<(u8, i32, i64, u16, i128)>() == (1, 22, -3, 4, -5),
+                    4 => r.read::<(u8, i32, i64, u16, i128, u32)>() == (1, 22, -3, 4, -5, 666666),
+                    5 => r.read::<(u8, String, i64, u16, i128, u64, isize)>() == (1, String::from("ab"), -3, 4, -5, 6, -7777),
+                    6 => r.read::<(u8, i32, i64, u16, i128, u64, isize, u128)>() == (1, 22, -3, 4, -5, 6, -7, 88888888),
+                    7 => { let a: (u8, u8) = r.read(); let b: Vec<i32> = r.read_vec(3); let c: u8 = r.read(); a == (1, 2) && b == vec![3, -4, 5] && c == 6 }
+                    k => {
+                        let n = vec_lens[(k - 8) % vec_lens.len()];
+                        if k - 8 < vec_lens.len() { r.read_vec::<i64>(n) == (0..n as i64).map(|i| if i % 3 == 0 { -i * 1001 } else { i }).collect::<Vec<_>>() }
+                        else { r.read_vec::<(u8, i16)>(n) == (0..n).map(|i| ((i % 200) as u8, -(i as i16))).collect::<Vec<_>>() }
+                    }
+                };
+                same && r.is_eof() });
+            match rt { Ok(true) => None, other => Some(Cex { input: inp, observed: format!("reading the text back: {:?}", other), expected: "the original value, then end of input".into() }) }
+        }
+    }
+}
+pub const N_COMPOUND: usize = 8 + 2 * 12;
+
 /// histories over {W = write a value, F = flush, C = write_char} ended by a drop: the sink must hold exactly the renderings in order
 fn check_script(script: &str, max: usize) -> Option<Cex> {
     let out = Rc::new(RefCell::new(Vec::new()));
@@ -114,6 +189,11 @@ pub fn run(_seed: u64, replay: Option<String>) -> Outcome {
             let p: Vec<&str> = rest.split(';').collect();
             return Outcome { cex: check_script(p[0], p.get(1).and_then(|x| x.parse().ok()).unwrap_or(0)), cases: 1 };
         }
+        if let Some(rest) = r.strip_prefix("compound:") {
+            let p: Vec<usize> = rest.split(';').map(|x| x.parse().unwrap_or(0)).collect();
+            if p.len() != 4 { return Outcome { cex: None, cases: 0 }; }
+            return Outcome { cex: check_compound(p[0], p[1], p[2], p[3] == 1), cases: 1 };
+        }
         let p: Vec<&str> = r.split(';').collect();
         let vals: Vec<i128> = p[1].split(',').filter(|x| !x.is_empty()).map(|x| x.parse().unwrap_or(0)).collect();
         return Outcome { cex: check(p[0].parse().unwrap_or(0), &vals, p[2].parse().unwrap_or(0), p.get(3) == Some(&"1"), p.get(4).and_then(|x| x.parse().ok()).unwrap_or(0)), cases: 1 };
@@ -138,6 +218,16 @@ pub fn run(_seed: u64, replay: Option<String>) -> Outcome {
             cases += 1;
             if let Some(c) = check(fill, &vals, max, use_drop, 0) { return Outcome { cex: Some(c), cases }; }
         } }
+    }
+    // compound values (tuples of arity 2..8, vectors of 0..257 elements, nested forms) at every alignment against the buffer boundary
+    for kind in 0..N_COMPOUND {
+        for fill in (65536 - 64..=65536).chain([0, 1, 65536 - 700, 65536 - 1500]) {
+            for (max, use_drop) in [(0usize, false), (7, true)] {
+                if max == 7 && fill % 4 != 0 { continue; }
+                cases += 1;
+                if let Some(c) = check_compound(kind, fill, max, use_drop) { return Outcome { cex: Some(c), cases }; }
+            }
+        }
     }
     // values whose decimal expansion has inner / trailing zeros, for every width (rendered and read back)
     let mut tens: Vec<i128> = Vec::new();
